@@ -842,7 +842,7 @@ def check_known_base(b, cd, classes):
         if not b[1].startswith(('std::', 'boost::')):
             die('pattern known_base: base class %s of %s is not defined in the policy headers: its static members cannot be enumerated' % (b[1], cd.name))
     if b[0] == 'other' and b[1] and not b[1].startswith(('std ::', 'boost ::')):
-        die('pattern known_base: base class `%s` of %s cannot be read as a class name' % (b[1], cd.name))
+        die('pattern known_base: base class `%s` of %s is not a class defined in the policy headers: its static members cannot be enumerated' % (b[1], cd.name))
 
 
 # --------------------------------------------------------------------------- Coq
